@@ -5,7 +5,7 @@ try:
     import re._constants as sre_constants
 except ImportError:                        # pragma: no cover
     import sre_parse, sre_constants
-from vlib.mir import norm, loc_str, op_place, loc_macro
+from vlib.mir import norm, loc_str, op_place, loc_macro, switch_info
 from rules import panics
 from rules.c08 import parse_attr
 
@@ -525,6 +525,36 @@ def rule_trim(ctx, rep, rid="R-C09-trim"):
             r.ok(inst, "%s:%d" % (b.f["file"], b.f["line"]))
 
 
+def rule_finite(ctx, rep, rid="R-C09-finite"):
+    """`f64::from_str` maps a decimal beyond the largest finite number to infinity without an error.  A literal that is read this way
+    denotes no infinity; it must be rejected.  Every parse of a float from literal text (FromStr::from_str / str::parse with f64 or
+    f32) in the DSL and the grammar is followed, in the same function, by an `is_finite` test of the parsed value whose false edge
+    does not lead to the Ok result."""
+    r = rep.rule(rid, "every floating-point number parsed from literal text is tested with is_finite() before it becomes a literal value (a literal beyond the "
+                      "largest number would otherwise be read as infinity)", floor=1, floor_what="float parses on literal paths")
+    for b in sorted(ctx.prog.bodies.values(), key=lambda x: x.id):
+        n = norm(b.id)
+        lit = b.f["crate"] == "ironplc_dsl" and re.search(r"dsl/src/(common|time)\.rs$", b.f["file"]) or n.startswith(GRAM) or b.f["crate"] == "ironplc_parser"
+        if not lit or "::test" in n:
+            continue
+        k = 0
+        for c in sorted(b.calls(), key=lambda c: (c.loc[0], c.loc[1])):
+            if not ((c.u or "").endswith(("FromStr::from_str", "str::parse")) and re.sub(r"\s", "", c.ga or "") in ("[f64]", "[f32]")):
+                continue
+            k += 1
+            inst = "%s|float parse#%d" % (n.replace(GRAM, "rule ").split("ironplc_dsl::")[-1], k)
+            fin = [c2 for c2 in b.calls() if (c2.callee or "").endswith("is_finite") and c.bb in b.dominators().get(c2.bb, set())]
+            good = False
+            for f in fin:
+                si = switch_info(b, f.target) if f.target is not None else None
+                if si and si["kind"] == "bool":
+                    good = True
+            if good:
+                r.ok(inst, loc_str(b.f, c.loc), "followed by an is_finite() test")
+            else:
+                r.finding(inst + "|infinity-accepted", loc_str(b.f, c.loc), "the parsed value is used without an is_finite() test: `1.0E400` is accepted and read as infinity")
+
+
 def run(ctx, rep):
     rep.not_decided += ["that accepted literals denote the right mathematical value (base conversion, underscores, unit sums, field order) - value computation, except the scale agreement decided by R-C09-scale"]
     rep.assumptions += ["python's sre parser reads the same regex subset as regex-syntax for the two address patterns (literals, classes, groups, ?, *)",
@@ -539,6 +569,7 @@ def run(ctx, rep):
     rule_fallible(ctx, rep)
     rule_trim(ctx, rep)
     rule_wrap(ctx, rep)
+    rule_finite(ctx, rep)
     from rules import c09_scale
     c09_scale.run(ctx, rep)
     from rules import c03_errdrop
